@@ -42,6 +42,8 @@ def _red(name):
         return lambda l: _fold(lambda a, b: a + b, l)
     if name == "max":
         return lambda l: _fold(lambda a, b: a if a >= b else b, l)
+    if name == "sumsq":
+        return L._red_sumsq
     return None
 
 
